@@ -30,7 +30,7 @@ default_tuning = tunings.get_tuning("Guitar", "Standard", 6, 1)
 def begin_track(tuning, padding=2):
     """Helper function that builds the first few characters of every bar."""
     # find longest shorthand tuning base
-    names = [x.to_shorthand() for x in tuning.tuning]
+    names = [(x[0] if isinstance(x, list) else x).to_shorthand() for x in tuning.tuning]
     basesize = len(max(names)) + 3
 
     # Build result
@@ -444,7 +444,7 @@ def from_Suite(suite, maxwidth=80):
 
 def _get_qsize(tuning, width):
     """Return a reasonable quarter note size for 'tuning' and 'width'."""
-    names = [x.to_shorthand() for x in tuning.tuning]
+    names = [(x[0] if isinstance(x, list) else x).to_shorthand() for x in tuning.tuning]
     basesize = len(max(names)) + 3
     barsize = ((width - basesize) - 2) - 1
 
